@@ -81,6 +81,12 @@ def reference_walk(order, dead, actions_meta, decisions, init_cl, nspec, observe
             return dict(sends=sends, consults=consults, outcome=('ok', meta[1], cur_host), dead=dead, skipped=skipped)
         if meta[0] == 'silent':
             return dict(sends=sends, consults=consults, outcome=('pending',), dead=dead, skipped=skipped)
+        if meta[0] == 'unprepared':
+            # the node does not know the statement: the driver prepares it there and sends the same EXECUTE again, same host, same
+            # consistency level - no decision of the policy is involved, so this is not a retry the policy is told about
+            sends.append((cur_host, cl))
+            cur_idx = len(sends) - 1
+            continue
         e = meta[1]
         if e['kind'] in CONN_KINDS:
             dead.add(cur_host)
@@ -123,7 +129,7 @@ def run_history(seed):
     random.seed(seed)
     n = rng.choice([2, 3, 3, 4])
     addrs = ['127.0.0.%d' % (i + 1) for i in range(n)]
-    proto = rng.choice([3, 4, 4, 4, 0x42])
+    proto = rng.choice([3, 4, 4, 4, 0x41, 0x42])
     ch = W.RandomChooser(random.Random(seed * 11 + 5), p_time=0.0, p_preempt=rng.choice([0.0, 0.0, 0.1, 0.3]))
     env = SimEnv(W.PrefixChooser([]), addresses=addrs)
     plan = Plan()
@@ -184,6 +190,12 @@ def run_history(seed):
             else:
                 actions = [e['action'] for e in errs] + [final]
                 metas = [('err', e) for e in errs] + [('ok', final)]
+                if skind == 'prepared':
+                    # UNPREPARED -> re-prepare -> EXECUTE again round trips before / between the judged errors
+                    for _ in range(rng.choice([0, 1, 1, 2])):
+                        at = rng.randint(0, len(actions) - 1)
+                        actions.insert(at, 'unprepared')
+                        metas.insert(at, ('unprepared',))
             # ---- statement
             lbp.order = None
             if skind == 'prepared':
@@ -225,6 +237,7 @@ def run_history(seed):
                 ref = reference_walk(order, dead, metas, [l['decision'] for l in log], init_cl, nspec, seen)
                 info = dict(seed=seed, request=r, proto=proto, nodes=n, order=order, dead_before=sorted(dead), statement=skind, idempotent=idem,
                             init_cl=init_cl, errors=kinds, final=final, speculative_phase=spec, spec_attempts=attempts,
+                            unprepared_round_trips=sum(1 for m in metas if m[0] == 'unprepared'),
                             decisions=[(C.DECISION_NAMES.get(l['decision'][0]), l['decision'][1]) for l in log],
                             node_trace=seen, predicted_trace=ref['sends'], predicted_outcome=repr(ref['outcome'])[:120],
                             outcome=[(o[0], repr(o[3])[:160]) for o in outs])
@@ -463,6 +476,8 @@ def run(ctx):
                 ctx.count("speculative_phases_idempotent" if q['idempotent'] else "speculative_phases_non_idempotent")
             if q.get('concurrent_errors'):
                 ctx.count("statements_with_two_errors_judged_back_to_back")
+            if q.get('unprepared_round_trips') and q['decisions']:
+                ctx.count("statements_with_reprepare_round_trip_and_judged_errors")
             if any(k in ('reset', 'close') for k in q['errors']):
                 ctx.count("statements_with_connection_loss")
             if len(ctx.samples) < 4 and len(q['decisions']) >= 3:
@@ -477,4 +492,5 @@ def run(ctx):
     ctx.floor_counters = {"histories": 150, "policy_consultations_checked": 400, "node_messages_compared": 800,
                           "speculative_phases_non_idempotent": 20, "speculative_phases_idempotent": 20,
                           "decisions_RETRY": 50, "decisions_RETRY_NEXT_HOST": 50, "decisions_RETHROW": 20, "decisions_IGNORE": 20,
-                          "statements_with_connection_loss": 30, "statements_with_two_errors_judged_back_to_back": 20}
+                          "statements_with_connection_loss": 30, "statements_with_two_errors_judged_back_to_back": 20,
+                          "statements_with_reprepare_round_trip_and_judged_errors": 20}
